@@ -114,6 +114,9 @@ def judge_queries(ctx, cases, obs):
                                 sig = "C23 %s %s (hidden=%s, %s)" % (
                                     kind, "misses a target within the level" if miss else "prints a target beyond the level",
                                     bool(h), "level -1" if L == -1 else "limited level")
+                                if c.get("chain") and miss and not h and L != -1:
+                                    # the class of graphs where an edge between two hidden siblings (_x#a -> _x#b) lies on the way
+                                    sig = "C23 %s charges a level for an edge between hidden siblings of one rule" % kind
                             bad.append((sig, q))
         for key, p in predicted.items():
             if key not in confirmed:
